@@ -141,8 +141,11 @@ pub enum Kind {
     OnesWords,
     Replicated,
     Symmetricish,
+    /// a function of a few of the variables only (the lowest ones half of the time: then every 64-bit word, or every
+    /// 2^k-bit window, of the table is the same)
+    Periodic,
 }
-pub const KINDS: [Kind; 6] = [Kind::Uniform, Kind::Sparse, Kind::Dense, Kind::OnesWords, Kind::Replicated, Kind::Symmetricish];
+pub const KINDS: [Kind; 7] = [Kind::Uniform, Kind::Sparse, Kind::Dense, Kind::OnesWords, Kind::Replicated, Kind::Symmetricish, Kind::Periodic];
 
 pub fn gen_table(rng: &mut Rng, n: usize, kind: Kind) -> Vec<u64> {
     let len = tsize(n);
@@ -197,6 +200,22 @@ pub fn gen_table(rng: &mut Rng, n: usize, kind: Kind) -> Vec<u64> {
                     }
                 }
                 pos += sub_bits;
+            }
+        }
+        Kind::Periodic => {
+            // the support: the k lowest variables, or a random subset
+            let support: usize = if n == 0 {
+                0
+            } else if rng.coin() {
+                (1usize << rng.below(n.min(6) + 1)) - 1
+            } else {
+                (rng.next() as usize) & ((1usize << n) - 1)
+            };
+            let g: Vec<bool> = (0..bits).map(|_| rng.coin()).collect();
+            for m in 0..bits {
+                if g[m & support] {
+                    t[m >> 6] |= 1 << (m & 63);
+                }
             }
         }
         Kind::Symmetricish => {
@@ -1008,28 +1027,18 @@ fn c08<X: L>(c: &mut Ctx, n: usize) {
         &[n.to_string(), k.to_string()],
         r.map(|(items, ex)| format!("{}|{}|{}", items.len(), fb(ex), if items.is_empty() { "".to_string() } else { items.join(";") })),
     );
-    // what is left of a run, through the consumers built on `fold` / `count` / `last`, after k calls of `next`
+    // what is left of a run, through the consumers built on `fold` (count, fold, last, for_each, max), after k calls of
+    // `next` - on the concrete iterator type, whose own overrides of these methods are then the ones that run
     if n <= 3 {
         let total = 1usize << (1 << n);
         let mut ks = vec![0usize, 1, total - 1, total, total];
         ks.push(c.rng.below(total + 1));
         for (i, k) in ks.into_iter().enumerate() {
-            let r = call(|| {
-                let mut it = X::all_functions_(n);
-                for _ in 0..k {
-                    it.next();
-                }
-                if i == 4 {
-                    // one more call past the end first
-                    it.next();
-                }
-                match i % 3 {
-                    0 => format!("count:{}", it.count()),
-                    1 => format!("fold:{}", it.fold(0usize, |acc, _| acc + 1)),
-                    _ => format!("last:{}", match it.last() { Some(l) => fl(&l), None => "none".to_string() }),
-                }
-            });
-            c.emit("all_functions_rest", ty, &[n.to_string(), fx(k), (i % 3).to_string()], r);
+            for variant in 0..5usize {
+                let extra = i == 4;
+                let r = call(|| X::iter_rest_(n, k, extra, variant));
+                c.emit("all_functions_rest", ty, &[n.to_string(), fx(k), [0usize, 1, 2, 0, 2][variant].to_string()], r);
+            }
         }
     }
     // the iterator through `nth` (what `skip` and `step_by` call): jumps from a position that is not the start, some of
